@@ -26,6 +26,8 @@ pub struct Obj {
     pub freed: bool,
     /// op index at which it was allocated
     pub born_at: usize,
+    /// a RefMut of this RCell was leaked: its contents can no longer be read (nor traced)
+    pub poisoned: bool,
 }
 
 impl Obj {
@@ -58,6 +60,10 @@ pub struct World {
     pub arenas: Vec<ArenaM>,
     pub handles: BTreeMap<u32, HandleM>,
     pub next_id: Id,
+    /// index of the top-level op being executed, and the handle operations that really happened:
+    /// (op index, handle, Some(new) for a clone / None for a drop, arena of the handle)
+    pub cur_op: usize,
+    pub handle_log: Vec<(usize, u32, Option<u32>, u8)>,
     reach_cache: Vec<Option<BTreeSet<Id>>>,
 }
 
@@ -71,6 +77,8 @@ impl World {
                 .collect(),
             handles: BTreeMap::new(),
             next_id: 1,
+            cur_op: 0,
+            handle_log: Vec::new(),
             reach_cache: vec![None; n_arenas],
         }
     }
